@@ -1,123 +1,143 @@
 (* C08, itertools clause — an error-free complete traversal of an anyio.itertools iterator over synchronous
-   sources, or one that yields nothing, passes a checkpoint (has_ck: the trace contains a checkpoint(),
-   checkpoint_if_cancelled() or cancel_shielded_checkpoint() event).  Infinite iterators: every non-empty prefix.
+   sources, or one that yields nothing, passes a checkpoint: passes_ck = the trace contains a cancellation check
+   (checkpoint / checkpoint_if_cancelled) AND a real yield (checkpoint / cancel_shielded_checkpoint); and no element
+   is handed out before the first cancellation check (check_before_first_yield_value).  Infinite iterators: every non-empty prefix.
    reduce (after the F22 fix): cancellation check first, a real yield at the end, at full strength.
    This file contains only statements closed by `exact` and their Print Assumptions. *)
 From AV Require Import Base Itertools ItertoolsProofs ItertoolsTee ItertoolsAlias.
 
 Theorem C08_accumulate_checkpoints : forall (f : Z -> Z -> Z) (initial : option Z) (s : src),
   is_sync (fst s) = true \/ yields (fst (accumulate_model f initial s)) = [] ->
-  has_ck (fst (accumulate_model f initial s)) = true.
+  passes_ck (fst (accumulate_model f initial s)) = true /\
+  check_before_first_yield_value (fst (accumulate_model f initial s)) = true.
 Proof. exact accumulate_checkpoints. Qed.
 Print Assumptions C08_accumulate_checkpoints.
 
 Theorem C08_batched_checkpoints : forall (n : Z) (strict : bool) (s : src),
   snd (batched_model n strict s) = None ->
   is_sync (fst s) = true \/ yields (fst (batched_model n strict s)) = [] ->
-  has_ck (fst (batched_model n strict s)) = true.
+  passes_ck (fst (batched_model n strict s)) = true /\
+  check_before_first_yield_value (fst (batched_model n strict s)) = true.
 Proof. exact batched_checkpoints. Qed.
 Print Assumptions C08_batched_checkpoints.
 
 Theorem C08_chain_checkpoints : forall (outer : kind) (ss : list src),
   is_sync outer = true \/ yields (fst (chain_model outer ss)) = [] ->
-  has_ck (fst (chain_model outer ss)) = true.
+  passes_ck (fst (chain_model outer ss)) = true /\
+  check_before_first_yield_value (fst (chain_model outer ss)) = true.
 Proof. exact chain_checkpoints. Qed.
 Print Assumptions C08_chain_checkpoints.
 
 Theorem C08_combinations_checkpoints : forall (r : Z) (s : src),
-  snd (combinations_model r s) = None -> has_ck (fst (combinations_model r s)) = true.
+  snd (combinations_model r s) = None -> passes_ck (fst (combinations_model r s)) = true /\
+  check_before_first_yield_value (fst (combinations_model r s)) = true.
 Proof. exact combinations_checkpoints. Qed.
 Print Assumptions C08_combinations_checkpoints.
 
 Theorem C08_combinations_with_replacement_checkpoints : forall (r : Z) (s : src),
-  snd (cwr_model r s) = None -> has_ck (fst (cwr_model r s)) = true.
+  snd (cwr_model r s) = None -> passes_ck (fst (cwr_model r s)) = true /\
+  check_before_first_yield_value (fst (cwr_model r s)) = true.
 Proof. exact combinations_with_replacement_checkpoints. Qed.
 Print Assumptions C08_combinations_with_replacement_checkpoints.
 
 Theorem C08_compress_checkpoints : forall (d s : src),
   is_sync (fst d) = true \/ yields (fst (compress_model d s)) = [] ->
-  has_ck (fst (compress_model d s)) = true.
+  passes_ck (fst (compress_model d s)) = true /\
+  check_before_first_yield_value (fst (compress_model d s)) = true.
 Proof. exact compress_checkpoints. Qed.
 Print Assumptions C08_compress_checkpoints.
 
 Theorem C08_count_checkpoints : forall (start step : Z) (k : nat),
-  1 <= k -> has_ck (fst (count_model start step k)) = true.
+  1 <= k -> passes_ck (fst (count_model start step k)) = true /\
+  check_before_first_yield_value (fst (count_model start step k)) = true.
 Proof. exact count_checkpoints. Qed.
 Print Assumptions C08_count_checkpoints.
 
 Theorem C08_cycle_checkpoints : forall (s : src) (k : nat), 1 <= k ->
   is_sync (fst s) = true \/ yields (fst (cycle_model s k)) = [] ->
-  has_ck (fst (cycle_model s k)) = true.
+  passes_ck (fst (cycle_model s k)) = true /\
+  check_before_first_yield_value (fst (cycle_model s k)) = true.
 Proof. exact cycle_checkpoints. Qed.
 Print Assumptions C08_cycle_checkpoints.
 
 Theorem C08_dropwhile_checkpoints : forall (p : Z -> bool) (s : src),
   is_sync (fst s) = true \/ yields (fst (dropwhile_model p s)) = [] ->
-  has_ck (fst (dropwhile_model p s)) = true.
+  passes_ck (fst (dropwhile_model p s)) = true /\
+  check_before_first_yield_value (fst (dropwhile_model p s)) = true.
 Proof. exact dropwhile_checkpoints. Qed.
 Print Assumptions C08_dropwhile_checkpoints.
 
 Theorem C08_filterfalse_checkpoints : forall (p : Z -> bool) (s : src),
   is_sync (fst s) = true \/ yields (fst (filterfalse_model p s)) = [] ->
-  has_ck (fst (filterfalse_model p s)) = true.
+  passes_ck (fst (filterfalse_model p s)) = true /\
+  check_before_first_yield_value (fst (filterfalse_model p s)) = true.
 Proof. exact filterfalse_checkpoints. Qed.
 Print Assumptions C08_filterfalse_checkpoints.
 
 Theorem C08_groupby_checkpoints : forall (same : Z -> Z -> bool) (key : Z -> Z) (s : src),
   is_sync (fst s) = true \/ yields (fst (groupby_model same key s)) = [] ->
-  has_ck (fst (groupby_model same key s)) = true.
+  passes_ck (fst (groupby_model same key s)) = true /\
+  check_before_first_yield_value (fst (groupby_model same key s)) = true.
 Proof. exact groupby_checkpoints. Qed.
 Print Assumptions C08_groupby_checkpoints.
 
 Theorem C08_islice_checkpoints : forall (args : list (option Z)) (s : src),
   snd (islice_model args s) = None ->
   is_sync (fst s) = true \/ yields (fst (islice_model args s)) = [] ->
-  has_ck (fst (islice_model args s)) = true.
+  passes_ck (fst (islice_model args s)) = true /\
+  check_before_first_yield_value (fst (islice_model args s)) = true.
 Proof. exact islice_checkpoints. Qed.
 Print Assumptions C08_islice_checkpoints.
 
 Theorem C08_pairwise_checkpoints : forall (s : src),
   is_sync (fst s) = true \/ yields (fst (pairwise_model s)) = [] ->
-  has_ck (fst (pairwise_model s)) = true.
+  passes_ck (fst (pairwise_model s)) = true /\
+  check_before_first_yield_value (fst (pairwise_model s)) = true.
 Proof. exact pairwise_checkpoints. Qed.
 Print Assumptions C08_pairwise_checkpoints.
 
 Theorem C08_permutations_checkpoints : forall (r : option Z) (s : src),
-  snd (permutations_model r s) = None -> has_ck (fst (permutations_model r s)) = true.
+  snd (permutations_model r s) = None -> passes_ck (fst (permutations_model r s)) = true /\
+  check_before_first_yield_value (fst (permutations_model r s)) = true.
 Proof. exact permutations_checkpoints. Qed.
 Print Assumptions C08_permutations_checkpoints.
 
 Theorem C08_product_checkpoints : forall (rep : Z) (ss : list src),
-  snd (product_model rep ss) = None -> has_ck (fst (product_model rep ss)) = true.
+  snd (product_model rep ss) = None -> passes_ck (fst (product_model rep ss)) = true /\
+  check_before_first_yield_value (fst (product_model rep ss)) = true.
 Proof. exact product_checkpoints. Qed.
 Print Assumptions C08_product_checkpoints.
 
 Theorem C08_repeat_checkpoints : forall (x : Z) (times : option Z) (k : nat),
-  (times = None -> 1 <= k) -> has_ck (fst (repeat_model x times k)) = true.
+  (times = None -> 1 <= k) -> passes_ck (fst (repeat_model x times k)) = true /\
+  check_before_first_yield_value (fst (repeat_model x times k)) = true.
 Proof. exact repeat_checkpoints. Qed.
 Print Assumptions C08_repeat_checkpoints.
 
 Theorem C08_starmap_checkpoints : forall (f : list Z -> Z) (outer : kind) (ss : list src),
   is_sync outer = true \/ yields (fst (starmap_model f outer ss)) = [] ->
-  has_ck (fst (starmap_model f outer ss)) = true.
+  passes_ck (fst (starmap_model f outer ss)) = true /\
+  check_before_first_yield_value (fst (starmap_model f outer ss)) = true.
 Proof. exact starmap_checkpoints. Qed.
 Print Assumptions C08_starmap_checkpoints.
 
 Theorem C08_takewhile_checkpoints : forall (p : Z -> bool) (s : src),
   is_sync (fst s) = true \/ yields (fst (takewhile_model p s)) = [] ->
-  has_ck (fst (takewhile_model p s)) = true.
+  passes_ck (fst (takewhile_model p s)) = true /\
+  check_before_first_yield_value (fst (takewhile_model p s)) = true.
 Proof. exact takewhile_checkpoints. Qed.
 Print Assumptions C08_takewhile_checkpoints.
 
 Theorem C08_zip_longest_checkpoints : forall (fill : Z) (ss : list src),
   all_sync ss = true \/ yields (fst (zip_longest_model fill ss)) = [] ->
-  has_ck (fst (zip_longest_model fill ss)) = true.
+  passes_ck (fst (zip_longest_model fill ss)) = true /\
+  check_before_first_yield_value (fst (zip_longest_model fill ss)) = true.
 Proof. exact zip_longest_checkpoints. Qed.
 Print Assumptions C08_zip_longest_checkpoints.
 
 Theorem C08_tee_next_checkpoints : forall (s : tst) (c : nat) (s' : tst) (r : tres) (ev : list (event Z)),
   tstep s (TNext c) = (s', r, ev) -> r <> TRejected ->
-  (r = TBlocked /\ (has_ck ev = true \/ tphase s' c = TLockYield \/ tphase s' c = TLockWait)) \/
+  (r = TBlocked /\ (passes_ck ev = true \/ tphase s' c = TLockYield \/ tphase s' c = TLockWait)) \/
   (r = TStop /\ tyielded s c = true).
 Proof. exact tee_next_checkpoints. Qed.
 Print Assumptions C08_tee_next_checkpoints.
@@ -127,7 +147,9 @@ Print Assumptions C08_tee_next_checkpoints.
    to the event loop, and in an already cancelled scope nothing is consumed and the callback is not called *)
 Theorem C08_reduce_checkpoints : forall (f : Z -> Z -> Z) (initial : option Z) (s : src),
   hd_error (fst (reduce_model f initial s false)) = Some CkIf /\
-  (snd (reduce_model f initial s false) = None -> has_yield (fst (reduce_model f initial s false)) = true).
+  (snd (reduce_model f initial s false) = None ->
+   passes_ck (fst (reduce_model f initial s false)) = true /\
+   check_before_first_yield_value (fst (reduce_model f initial s false)) = true).
 Proof. exact reduce_checkpoints. Qed.
 Print Assumptions C08_reduce_checkpoints.
 
@@ -145,8 +167,9 @@ Proof. exact reduce_pre_F22_refuted_pinned. Qed.
 Print Assumptions C08_reduce_pre_F22_refuted_pinned.
 
 Theorem C08_zip_longest_alias_checkpoints : forall (fill : Z) (kd : ikinds) (st : istore) (ps : list nat),
-  yields (fst (zip_longest_alias_model fill kd st ps)) = [] ->
-  has_ck (fst (zip_longest_alias_model fill kd st ps)) = true.
+  forallb (fun i => is_sync (kd i)) ps = true \/ yields (fst (zip_longest_alias_model fill kd st ps)) = [] ->
+  passes_ck (fst (zip_longest_alias_model fill kd st ps)) = true /\
+  check_before_first_yield_value (fst (zip_longest_alias_model fill kd st ps)) = true.
 Proof. exact zip_longest_alias_checkpoints. Qed.
 Print Assumptions C08_zip_longest_alias_checkpoints.
 
@@ -167,3 +190,58 @@ Theorem C08_tee_cks_logged : forall (s : tst) (o : top) (s' : tst) (r : tres) (e
   end.
 Proof. exact tee_cks_logged. Qed.
 Print Assumptions C08_tee_cks_logged.
+
+Theorem C08_chain_alias_checkpoints : forall (outer : kind) (kd : ikinds) (st : istore) (ps : list nat),
+  is_sync outer = true \/ yields (fst (chain_alias_model outer kd st ps)) = [] ->
+  passes_ck (fst (chain_alias_model outer kd st ps)) = true /\
+  check_before_first_yield_value (fst (chain_alias_model outer kd st ps)) = true.
+Proof. exact chain_alias_checkpoints. Qed.
+Print Assumptions C08_chain_alias_checkpoints.
+
+Theorem C08_product_alias_checkpoints : forall (rep : Z) (kd : ikinds) (st : istore) (ps : list nat),
+  snd (product_alias_model rep kd st ps) = None ->
+  passes_ck (fst (product_alias_model rep kd st ps)) = true /\
+  check_before_first_yield_value (fst (product_alias_model rep kd st ps)) = true.
+Proof. exact product_alias_checkpoints. Qed.
+Print Assumptions C08_product_alias_checkpoints.
+
+Theorem C08_starmap_alias_checkpoints : forall (f : list Z -> Z) (outer : kind) (kd : ikinds) (st : istore) (ps : list nat),
+  is_sync outer = true \/ yields (fst (starmap_alias_model f outer kd st ps)) = [] ->
+  passes_ck (fst (starmap_alias_model f outer kd st ps)) = true /\
+  check_before_first_yield_value (fst (starmap_alias_model f outer kd st ps)) = true.
+Proof. exact starmap_alias_checkpoints. Qed.
+Print Assumptions C08_starmap_alias_checkpoints.
+
+Theorem C08_compress_self_checkpoints : forall (s : src),
+  is_sync (fst s) = true \/ yields (fst (compress_self_model s)) = [] ->
+  passes_ck (fst (compress_self_model s)) = true /\
+  check_before_first_yield_value (fst (compress_self_model s)) = true.
+Proof. exact compress_self_checkpoints. Qed.
+Print Assumptions C08_compress_self_checkpoints.
+
+(* tee, per consumer, with checks and yields counted separately *)
+Theorem C08_tee_consumer_passes_checkpoint : forall (mode : nat) (source : list Z) (n : nat) (ops : list top) (c : nat),
+  let s := trun mode source n ops in
+  tstopped s c = true ->
+  (tseen s c = [] -> 1 <= tchk s c /\ 1 <= tyld s c) /\
+  ((1 <= tchk s c /\ 1 <= tyld s c) \/ 1 <= tlocks s c).
+Proof. exact tee_consumer_passes_checkpoint. Qed.
+Print Assumptions C08_tee_consumer_passes_checkpoint.
+
+Theorem C08_tee_checks_yields_logged : forall (s : tst) (o : top) (s' : tst) (r : tres) (ev : list (event Z)),
+  tstep s o = (s', r, ev) ->
+  match o with
+  | TCopy _ _ => True
+  | _ => tchk s' (op_consumer o) = tchk s (op_consumer o) + count_check ev /\
+         tyld s' (op_consumer o) = tyld s (op_consumer o) + count_yield ev
+  end.
+Proof. exact tee_checks_yields_logged. Qed.
+Print Assumptions C08_tee_checks_yields_logged.
+
+(* outside the clause (asynchronous source that yields): an element is handed out before any cancellation check -
+   by design the asynchronous source is expected to checkpoint itself; pinned so that the boundary stays visible *)
+Theorem C08_async_source_value_before_check_pinned :
+  has_ck (fst (filterfalse_model (fun _ => false) (KAsync, [1; 2]%Z))) = false /\
+  check_before_first_yield_value (fst (filterfalse_model (fun _ => false) (KAsync, [1; 2]%Z))) = false.
+Proof. exact async_nonempty_has_no_checkpoint. Qed.
+Print Assumptions C08_async_source_value_before_check_pinned.
